@@ -165,7 +165,7 @@ theorem engine_env (cfg : GuardCfg) (req : Request) (expand : PyVal → Option P
   have a6 : attr (encResource req) "id" = req.resourceId := rfl
   have a7 : attr (encResource req) "attrs" = req.resourceAttrs := rfl
   simp only [a1, a2, a3, a4, a5, a6, a7, roles_or_empty req.roles hroles, hx, dictCopy_or, context_attrs, env_display,
-    isNotNone_truthy, hrr, truthy_bool, effectiveRoles_eq]
+    isNotNone_truthy, hrr, truthy_bool, effectiveRoles_outcome]
   cases hres : cfg.resolver with
   | none =>
     simp only [Option.isNone_none, Bool.not_true, Bool.false_eq_true, if_false]
